@@ -190,12 +190,11 @@ def symptom(ev, expected):
 # strata: the generator features with a known defect are switched off in the core stratum and
 # switched on one at a time; a violation's signature is "<defective features of the case>/<symptom>"
 
-CORE_OFF = ["nodupkey", "nodirid", "nofragdirs"]
-DEFECT_TAGS = {"dupkey": "dupkey", "dir-on-id": "dirid", "frag-dir": "fragdirs", "abstract": "abstract", "rootnode": "rootnode"}
+CORE_OFF = ["nodirid", "nofragdirs"]
+DEFECT_TAGS = {"dir-on-id": "dirid", "frag-dir": "fragdirs", "abstract": "abstract", "rootnode": "rootnode"}
 STRATA = {
     # name: (features, share of the budget)
     "core": (CORE_OFF + ["oddids", "biglists", "richargs"], 0.5),
-    "dupkey": ([f for f in CORE_OFF if f != "nodupkey"], 0.08),
     "dirid": ([f for f in CORE_OFF if f != "nodirid"], 0.08),
     "fragdirs": ([f for f in CORE_OFF if f != "nofragdirs"], 0.08),
     "abstract": (CORE_OFF + ["abstract", "richargs"], 0.2),
